@@ -37,6 +37,12 @@ def make_specs(ctx: Ctx, n):
             plan.append({"op": "simulate", "target": "simulate", "init": init, "seed": rng.randrange(10**6), "vsrc": "given"})
             groups += ["c02", "c03"]
         specs.append(mk_spec(i, m, groups, plan, label=label + ("; float64" if i % 5 == 4 else ""), x64=i % 5 == 4))
+    # two stochastic states: one transition array per stochastic state in the template, each routed to its own weights
+    r2 = ctx.rng("two-stochastic")
+    for j in range(max(4, n // 18)):
+        m = gen.rand_model(r2, {"p_h": 1.0, "p_h_stoch": 1.0, "p_e": 1.0, "T": [2, 3], "p_z": 0.0, "max_cells": 900})
+        plan = [{"op": "template"}, {"op": "solve", "jit": True}]
+        specs.append(mk_spec(len(specs), m, ["template", "solve"], plan, label="two stochastic states"))
     return specs
 
 
